@@ -100,6 +100,19 @@ CLAIMED = {
         "the domain (consolidate_attrs forwards _add_ws to the throwaway Tag).",
    tech="Coq proof (induction over argument lists and operation histories) + differential correspondence + spec oracle",
    ref="6 C15"),
+ "C16": dict(
+   text="Machine-checked theorems over the statement-level model of add_class / remove_class / has_class / add_style "
+        "and css(): has_class is whitespace-token membership; add_class puts the token first or last and disturbs no "
+        "other token or attribute; remove_class filters exactly that token, keeps order, drops the attribute iff no "
+        "token remains; add_style rejects a declaration without trailing semicolon leaving the tag unchanged; css() "
+        "equals the declarative concatenation with the per-character key normalisation, is None iff nothing remains, "
+        "and is always accepted by add_style; token lists after ANY operation history equal the declarative fold. "
+        "Tied to the code by differential execution over adversarial tokens/histories, the whitespace set checked "
+        "against str.isspace over all code points.",
+   note=TB + "One genuine deviation is listed in known_findings.json (HTML()-valued class attribute + token with a "
+        "metacharacter: add_class stores the token escaped, has_class compares raw). css() keyword names are ASCII.",
+   tech="Coq proof (induction over strings, token lists and operation histories) + differential correspondence",
+   ref="6 C16"),
  "C19": dict(
    text="Finite theorems decided by kernel computation over tables regenerated from tags.py, svg.py, __init__.py "
         "and scripts/generate_tags.py on every run (all 113+66 wrappers have the exact pass-through shape, own "
